@@ -248,7 +248,4 @@ Witness ==
         IN IF key \in TLCGet(7) THEN TRUE
            ELSE /\ TLCSet(7, TLCGet(7) \cup {key})
                 /\ PrintT("WITNESS " \o ToString(S.id) \o " " \o ToString(fin[1]))
-
-\* state constraint for the C18 runs: do not explore beyond a state in which a
-\* bound is exceeded (cannot happen while Safe holds; keeps the runs independent)
 =============================================================================
